@@ -1624,7 +1624,12 @@ def run_model_case(case, idx, M, threads):
         mod, rt = M.c06()
         out = []
         for reps in case.get("reps", [1]):
-            out += [str(p) for p in mod.judge(case["case"], rt, reps)]
+            for p in mod.judge(case["case"], rt, reps):
+                # ("finding", ..) = C06's recorded value-level finding (rounded determinant of an exactly singular
+                # system): the output is defined and no memory is involved - not a C20 matter
+                if isinstance(p, tuple) and p[0] == "finding":
+                    continue
+                out.append(p[1] if isinstance(p, tuple) else str(p))
         return out
     if src == "scoreassign":
         mod, c, indexing = M.c07()
@@ -1652,13 +1657,15 @@ def run_descriptor(case, cx):
 
 def main():
     cases_path, out_path = sys.argv[1], sys.argv[2]
+    first = int(sys.argv[3]) if len(sys.argv) > 3 else 0            # resume behind an aborting case
+    skip = set(x for x in os.environ.get("C20_SKIP", "").split(",") if x)   # kernels that keep aborting
     # the kernels printf diagnostics ("Found 3 in your blob image", "Array bounds error!"): not part of the verdict
     sys.stdout.flush()
     os.dup2(os.open(os.devnull, os.O_WRONLY), 1)
     threads = [int(x) for x in os.environ.get("C20_THREADS", "").split(",") if x]
     cx = Ctx()
     M = Models()
-    out = {"n": 0, "problems": [], "rejected": [], "checked": {}, "genbad": [], "calls": 0, "notes": {}, "time_s": {},
+    out = {"n": 0, "problems": [], "rejected": [], "checked": {}, "genbad": [], "calls": 0, "notes": {}, "time_s": {}, "skipped": 0,
            "kernels": sorted(K), "module_functions": sorted(
                n for n in dir(cx.c) if type(getattr(cx.c, n)).__name__ == "fortran")}
     old = cx.c.cimaged11_omp_get_max_threads()
@@ -1666,9 +1673,16 @@ def main():
         lines = f.readlines()
     cur = open(out_path + ".cur", "w")
     log = open(out_path + ".log", "w")        # verdicts as they arise: survives a sanitizer abort of this process
+    log.write(json.dumps({"t": "h", "idx": -1, "module_functions": out["module_functions"], "kernels": out["kernels"]}) + "\n")
+    log.flush()
     try:
         for idx, line in enumerate(lines):
+            if idx < first:
+                continue
             case = json.loads(line)
+            if (case["d"]["k"] if "d" in case else case["src"]) in skip:
+                out["skipped"] += 1
+                continue
             cur.seek(0)
             cur.write("%-12d" % idx)
             cur.flush()
@@ -1693,6 +1707,8 @@ def main():
                         now = sorted(cx.checked)
                         if prev is None or len(now) > len(prev):
                             out["checked"][k] = now
+                            log.write(json.dumps({"t": "c", "idx": idx, "k": k, "names": now}) + "\n")
+                            log.flush()
                         probs += [("[%d threads] " % nt if nt else "") + p for p in cx.problems]
                 else:
                     probs = run_model_case(case, idx, M, threads)
